@@ -350,4 +350,42 @@ theorem get_step_eq (env : Env Doc) (V : GenJtp.Ext URL Mime.MediaType Doc) (W :
     · rw [if_pos (show link.Scheme ≠ Go.str "https" from hsch)]
       simp [hsch, opened]
 
+/-- The hypotheses of `get_step_eq` can be met, for every model world, cache and link whose
+    scheme field agrees with the model's `https`: connections are the responses they deliver, the
+    cache lookup is the model's, URLs are records of their `String()`. -/
+def urlOf (s : Str) : URL := { String := s }
+
+def bundleOf : Entry Doc → GenJtp.bundle URL Doc
+  | .doc d s => { item := some d, source := some (urlOf s), redirect := none }
+  | .redirect t => { item := none, source := none, redirect := some (urlOf t) }
+
+theorem step_hypotheses_hold (env : Env Doc) (cache : Cache Doc) (tol : List Str) (timeout : Int) (link : URL) :
+    ∃ (V : GenJtp.Ext URL Mime.MediaType Doc) (W : Ext Doc Str),
+      Gen03.Faithful V ∧ V.closeFails = false ∧ V.decode = env.decode ∧
+      (∀ v, (V.urlParse v).map (fun r => (V.resolveReference link r).String) = env.resolve link.String v) ∧
+      env.serve link.String = (W.dial (dialer timeout) (Go.str "tcp") (targetOf link)).map W.newReader ∧
+      W.setDeadlineFails = false ∧ W.writeFails = false ∧
+      (match (cache.get (cacheKey tol link.String)).1 with
+        | none => W.cacheGet (cacheKey tol link.String) = none
+        | some e => ∃ b, W.cacheGet (cacheKey tol link.String) = some b ∧ Rep b e) := by
+  refine ⟨Gen03.ext (fun v => (env.resolve link.String v).map urlOf) (fun _ r => r) env.decode false,
+    { cacheGet := fun k => ((cache.get k).1).map bundleOf, dial := fun _ _ _ => env.serve link.String,
+      setDeadlineFails := false, writeFails := false, newReader := id },
+    Gen03.ext_faithful _ _ _ _, rfl, rfl, ?_, ?_, rfl, rfl, ?_⟩
+  · intro v
+    show ((env.resolve link.String v).map urlOf).map (fun r => r.String) = _
+    cases env.resolve link.String v <;> rfl
+  · show _ = (env.serve link.String).map id
+    cases env.serve link.String <;> rfl
+  · show match (cache.get (cacheKey tol link.String)).1 with
+      | none => ((cache.get (cacheKey tol link.String)).1).map bundleOf = none
+      | some e => ∃ b, ((cache.get (cacheKey tol link.String)).1).map bundleOf = some b ∧ Rep b e
+    cases (cache.get (cacheKey tol link.String)).1 with
+    | none => rfl
+    | some e =>
+      refine ⟨bundleOf e, rfl, ?_⟩
+      cases e with
+      | doc d s => exact Rep.doc d (urlOf s)
+      | redirect t => exact Rep.redirect (urlOf t)
+
 end Gen04
